@@ -429,6 +429,12 @@ class Program(object):
             return cands[0]
         raise AnalysisError("anchor %s not found and its role %r is played by %d functions" % (qualname, role, len(cands)))
 
+    def inl(self, fi):
+        """fi with the statement-position calls of its private same-module helpers inlined (sa.inline): what the path
+        rules analyse, so that `extract function` does not hide a path"""
+        from sa.inline import inlined
+        return inlined(self, fi)
+
     def cls(self, qualname):
         mod, _, local = qualname.partition(".")
         m = self.modules.get(mod)
